@@ -153,6 +153,9 @@ def check_class(P, R, clsname):
         for node, key in schema.key_reads([n], rroots):
             if isinstance(getattr(node, "_parent", None), ast.Assign) and node._parent.value is node and isinstance(node._parent.targets[0], ast.Name) and node._parent.targets[0].id in rroots:
                 continue  # binding a group
+            par_ = getattr(node, "_parent", None)
+            if isinstance(par_, ast.ListComp) and par_.elt is node and isinstance(getattr(par_, "_parent", None), ast.Assign) and isinstance(par_._parent.targets[0], ast.Name) and par_._parent.targets[0].id in rroots:
+                continue  # binding a list of groups
             nreads += 1
             R.check(
                 schema.is_dereferenced(node), "SCHEMA.S3", rd.key, f"{src(node)} in `{src(schema_stmt(node))[:70]}`",
